@@ -514,4 +514,5 @@ class DirectoryRule(Contract):
 
 def registry():
     from contracts import posix_shell
-    return posix_shell.registry() + [EscapeStr(), Write(), DirectoryRule()]
+    from contracts import lists
+    return posix_shell.registry() + [EscapeStr(), Write(), DirectoryRule(), lists.Tween(), lists.MakeWriteEach(), lists.MakeWriteShell()]
